@@ -221,6 +221,7 @@ func containsWildcards(name string) bool {
 func dedupePaths(in []string) []string {
 	out := make([]string, 0, len(in))
 	var last string
+	afterExclusion := 0
 	for _, s := range in {
 		// if one of the paths is root there is no filter
 		if s == "." {
@@ -230,9 +231,12 @@ func dedupePaths(in []string) []string {
 			continue
 		}
 		// names with bytes that sort below "/" (e.g. "a-b") can sit between a
-		// path and its descendants, so also check the entries kept before last
+		// path and its descendants, so also check the entries kept before last.
+		// NewFilterFS passes include patterns followed by follow-path targets:
+		// an entry kept before an exclusion ("!") pattern no longer covers what
+		// comes after that exclusion, so only look back as far as the last one
 		inside := false
-		for _, o := range out {
+		for _, o := range out[afterExclusion:] {
 			if strings.HasPrefix(s, o+"/") {
 				inside = true
 				break
@@ -243,6 +247,9 @@ func dedupePaths(in []string) []string {
 		}
 		out = append(out, s)
 		last = s
+		if strings.HasPrefix(s, "!") {
+			afterExclusion = len(out)
+		}
 	}
 	return out
 }
